@@ -32,6 +32,18 @@ Lemma lock_table_log_legal s0 tr (g : gst) :
   run repo_body (mode_of lock_table) (init s0) tr g -> legal repo_body s0 (glog g) (ghost g).
 Proof. apply repo_glog_legal. Qed.
 
+Lemma lock_table_acquire_between s0 tr (g : gst) t :
+  run repo_body (mode_of lock_table) (init s0) tr g -> proto 0 (tproj t (erase tr)) = true.
+Proof. apply rw_acquire_between, discipline_ok_sound, lock_table_ok. Qed.
+
+Lemma lock_table_log_order s0 tr (g : gst) :
+  run repo_body (mode_of lock_table) (init s0) tr g -> map entry_tid (glog g) = acq_tids tr.
+Proof. apply glog_order. Qed.
+
+Lemma lock_table_ghost_good tr (g : gst) :
+  run repo_body (mode_of lock_table) (init []) tr g -> good (ghost g).
+Proof. apply repo_ghost_good. Qed.
+
 (* non-vacuity of the hypothesis "run": the machine under the regenerated table
    admits a concurrent schedule with two overlapping readers and a writer, and
    it ends with every thread returned *)
